@@ -180,13 +180,25 @@ class C17(Check):
             self.violated("U2", TOOLS, pf.name, "def-signature-from-args", pf, "the emitted def does not take exactly `args` as parameters")
         # ---- U4
         ts = mod.func("_transform_stoichiometry")
-        body = strip_docstring(ts.body)
-        ifs = [s for s in body if isinstance(s, ast.If)]
-        last = body[-1]
-        shapes = [norm(i.test) for i in ifs]
-        ret_of = {norm(i.test): norm(i.body[-1]) for i in ifs if i.body}
-        if isinstance(last, ast.Return) and "SymbolicFn(" in norm(last.value) and ret_of.get("isinstance(v, sympy.Float)") == "return v" \
-                and ret_of.get("isinstance(v, sympy.Symbol)") == "return v.name" and f"free_symbols(v)" in norm(last.value):
+        pk, pv = [a_.arg for a_ in ts.args.args][:2]
+        rets4 = SymInterp().run_function(ts, Sym()).returns
+        ok4 = bool(rets4)
+        kinds4 = set()
+        for st, _ in rets4:
+            rv = [e[1] for e in st.events if e[0] == "return"]
+            rv = rv[-1] if rv else "None"
+            is_float = [p_ for c, p_ in st.conds if c == f"isinstance({pv}, sympy.Float)"]
+            is_sym = [p_ for c, p_ in st.conds if c == f"isinstance({pv}, sympy.Symbol)"]
+            if is_float and is_float[-1]:
+                kinds4.add("float")
+                ok4 = ok4 and rv == pv
+            elif is_sym and is_sym[-1]:
+                kinds4.add("symbol")
+                ok4 = ok4 and rv == f"{pv}.name"
+            else:
+                kinds4.add("other")
+                ok4 = ok4 and rv in (f"SymbolicFn({pk}, expr={pv}, args=free_symbols({pv}))", f"SymbolicFn(fn_name={pk}, expr={pv}, args=free_symbols({pv}))")
+        if ok4 and kinds4 == {"float", "symbol", "other"}:
             self.holds("U4", MOD, ts.name, "exhaustive", ts, "Float -> number, Symbol -> name, everything else -> computed coefficient over its own free symbols")
         else:
             self.violated("U4", MOD, ts.name, "exhaustive", ts, "a stoichiometry shape falls through without being carried over",
